@@ -105,7 +105,12 @@ Inductive lop :=
 | LEq (o : pyval)
 | LNe (o : pyval)
 | LNew (it : iterable)                    (* ListProxy(cfg, field, it): a new typed list *)
-| LAssign (it : iterable).                (* cfg.field = it : whole-value assignment through ListField._validate *)
+| LAssign (it : iterable)                 (* cfg.field = it : whole-value assignment through ListField._validate *)
+| LRAdd (it : iterable)                   (* it + p with it a plain list / tuple: the reflected position *)
+| LConcat (star : bool) (before after : list pyval)   (* sum([before, p, after], []) / [*before, *p, *after] *)
+| LEqR (o : pyval)                        (* o == p *)
+| LLt (o : pyval)                         (* p < o *)
+| LGt (o : pyval).                        (* o < p *)
 
 Definition it_items (self : list pyval) (it : iterable) : list pyval :=
   match it with
@@ -285,6 +290,28 @@ Fixpoint list_py_eq (a b : list pyval) : bool :=
   | _, _ => false
   end.
 
+(* list ordering: the first pair of items that are not == decides, by <; a proper prefix is smaller *)
+Definition comparable (a b : pyval) : bool :=
+  match a, b with
+  | PStr _, PStr _ => true
+  | (PInt _ | PBool _), (PInt _ | PBool _) => true
+  | _, _ => false
+  end.
+Definition orderable_kind (v : pyval) : bool :=     (* kinds whose mutual < is decided here: TypeError unless comparable *)
+  match v with PNone | PBool _ | PInt _ | PStr _ => true | _ => false end.
+Fixpoint list_lt (a b : list pyval) : res bool :=
+  match a, b with
+  | [], [] => Ok false
+  | [], _ :: _ => Ok true
+  | _ :: _, [] => Ok false
+  | x :: xs, y :: ys =>
+      if py_eq x y then list_lt xs ys
+      else if comparable x y then Ok (py_lt x y)
+      else if orderable_kind x && orderable_kind y then Err EType else Unmodelled   (* floats, containers: not modelled *)
+  end.
+Definition o_cmp (r : res bool) : res pyval :=
+  match r with Ok b => Ok (PBool b) | Err e => Err e | Unmodelled => Unmodelled end.
+
 Definition b_eq (s : list pyval) (o : pyval) : bool :=
   match o with PList _ l => list_py_eq s l | _ => false end.
 
@@ -347,6 +374,16 @@ Definition b_step (s : list pyval) (op : lop) : list pyval * res pyval :=
   | LNe o => (s, Ok (PBool (negb (b_eq s o))))
   | LNew it => (s, Ok (PList 0 (it_items s it)))       (* list(it) *)
   | LAssign it => (it_items s it, Ok PNone)            (* x = list(it) *)
+  | LRAdd it =>
+      match it with
+      | ItList l => (s, Ok (PList 0 (l ++ s)))         (* list.__add__(l, s): a plain list, left operand first *)
+      | ItTuple _ => (s, Err EType)                    (* can only concatenate tuple (not "list") to tuple *)
+      | _ => (s, Unmodelled)
+      end
+  | LConcat _ before after => (s, Ok (PList 0 (before ++ s ++ after)))
+  | LEqR o => (s, Ok (PBool (b_eq s o)))
+  | LLt o => (s, match o with PList _ l => o_cmp (list_lt s l) | _ => Err EType end)
+  | LGt o => (s, match o with PList _ l => o_cmp (list_lt l s) | _ => Err EType end)
   end.
 
 (* ------------------------------------------------------------------------------------------ *)
@@ -447,6 +484,11 @@ Definition lop_entry (op : lop) : string :=
   | LNe _ => "__ne__"
   | LNew _ => "__init__"
   | LAssign _ => "__init__"
+  | LRAdd _ => "__radd__"
+  | LConcat star _ _ => if star then "__iter__" else "__radd__"
+  | LEqR _ => "__eq__"
+  | LLt _ => "__lt__"
+  | LGt _ => "__gt__"
   end.
 Close Scope string_scope.
 
